@@ -255,3 +255,19 @@ func (e *Engine) AssumedList() []string {
 	sort.Strings(out)
 	return out
 }
+
+// ValueTerms lists the terms whose model values are useful for building a
+// concrete input: the values read from input streams on the path.
+func (o *Obl) ValueTerms() []*Term {
+	var out []*Term
+	seen := map[int]bool{}
+	for _, ev := range o.Trace {
+		for _, t := range []*Term{ev.Val, ev.Len} {
+			if t != nil && !t.Bound && !seen[t.ID] && t.Op != "int" {
+				seen[t.ID] = true
+				out = append(out, t)
+			}
+		}
+	}
+	return out
+}
